@@ -313,7 +313,7 @@ Proof.
 Qed.
 
 Lemma to_lower_fixed : forall t, Forall (fun c => lower1 c = c) t -> to_lower t = t.
-Proof. induction t as [|c t IH]; intro H; [reflexivity|]. inversion H; subst. cbn. rewrite H2, (IH H3). reflexivity. Qed.
+Proof. unfold to_lower. induction t as [|c t IH]; intro H; [reflexivity|]. inversion H; subst. cbn [map]. rewrite H2, (IH H3). reflexivity. Qed.
 
 Lemma plain_char_facts : forall c, plain_char c = true ->
   is_ws c = false /\ Ascii.eqb c comma = false /\ lower1 c = c.
@@ -415,7 +415,7 @@ Proof.
 Qed.
 
 (* ---------------------------------------------------------------- domains *)
-Lemma parse_bool_print : forall lower b,
+Lemma parse_bool_print : forall (lower b : bool),
   parse_bool (if lower then to_lower (if b then t_true else t_false) else (if b then t_true else t_false)) = Some (VBool b).
 Proof. intros [] []; reflexivity. Qed.
 
@@ -490,6 +490,21 @@ Qed.
 (* printing canonicalises: whatever spelling was accepted, the printed form is accepted and denotes the same value *)
 Theorem print_parse_canonical : forall d t v, wf_dom d -> parse d t = Some v -> parse d (print d v) = Some v.
 Proof. intros d t v W H. apply parse_print_id; [exact W|eapply parse_valid; eassumption]. Qed.
+
+Lemma wf_domb_sound : forall d p, wf_domb d = true -> 0 < p <= u64max -> wf_dom (subst_par p d).
+Proof.
+  induction d as [lower|tmax lo|tmin tmax lo hi|q| |lower|e|e|lz d IH]; intros p H P; cbn in H |- *; auto.
+  - apply Z.leb_le in H. exact H.
+  - apply andb_true_iff in H. destruct H as [H1 H2]. apply Z.leb_le in H1. apply Z.leb_le in H2. lia.
+Qed.
+
+Lemma inst_rows_wf : forall rows p, forallb (fun r => wf_domb (snd r)) rows = true -> 0 < p <= u64max ->
+  Forall (fun r => wf_dom (snd r)) (inst_rows p rows).
+Proof.
+  intros rows p H P. unfold inst_rows. apply Forall_forall. intros r I.
+  apply in_map_iff in I. destruct I as [r0 [<- I]]. cbn [snd].
+  rewrite forallb_forall in H. apply wf_domb_sound; [apply (H r0 I)|exact P].
+Qed.
 
 (* ---------------------------------------------------------------- field-level set *)
 Definition lazy_unset_dom (d : dom) (cur : option value) : bool :=
